@@ -1423,7 +1423,7 @@ where
     ) -> Result<Prio3VerifierMessage<SEED_SIZE>, VdafError> {
         let mut verifiers = vec![T::Field::zero(); self.typ.verifier_len() * self.num_proofs()];
         let mut joint_rand_parts = Vec::with_capacity(self.num_aggregators());
-        let mut count = 0;
+        let mut count: usize = 0;
         for share in inputs.into_iter() {
             count += 1;
 
@@ -1447,7 +1447,7 @@ where
             add_assign_vector(&mut verifiers, share.verifiers.iter().copied());
         }
 
-        if count != self.num_aggregators {
+        if count != self.num_aggregators() {
             return Err(VdafError::Uncategorized(format!(
                 "unexpected message count: got {}; want {}",
                 count, self.num_aggregators,
